@@ -29,7 +29,7 @@ RULE = (
     "templates per cell; characters are sampled from the codec's own repertoire. distinct = (cell, template "
     "text); non-trivial = the template holds at least one non-ASCII character."
 )
-RULE += ' added since: stateful output codecs, corrupted declarations, module-head options (future_imports / imports) around the coding line, get_def(..).render identity of encoded output.'
+RULE += ' added since: stateful output codecs, corrupted declarations, module-head options (future_imports / imports) around the coding line, get_def(..).render identity of encoded output. the output identities also on templates built by a TemplateLookup that carries output_encoding / encoding_errors.'
 ASSUMPTIONS = ["CPython codecs are the reference; only ASCII-compatible encodings are in scope"]
 MIN_NONTRIVIAL = 200
 REQUIRED_COUNTERS = ["renders_compared", "expected_compile_errors_seen", "module_reloads", "fresh_process_reloads", "output_encodings_compared", "strict_encode_errors_matched"]
@@ -48,9 +48,10 @@ _rep = {}
 
 def setup_worker():
     from mako import exceptions
+    from mako.lookup import TemplateLookup
     from mako.template import Template
 
-    _st.update(Template=Template, exceptions=exceptions, tmp=tempfile.mkdtemp(prefix="c18-"), n=0)
+    _st.update(TemplateLookup=TemplateLookup, Template=Template, exceptions=exceptions, tmp=tempfile.mkdtemp(prefix="c18-"), n=0)
     import atexit
 
     atexit.register(lambda: shutil.rmtree(_st["tmp"], ignore_errors=True))
@@ -270,6 +271,12 @@ def run_cell(case, res):
                 res.violate("source-raises", "%s: Template.source raised %s: %s" % (what, type(e).__name__, e), replay_case=rc)
             if pname == "bytes":
                 check_output_side(t, T, data, kw, out, res, what, rc, real)
+            if pname == "file":
+                # the same identities for templates that a TemplateLookup builds with ITS output_encoding/encoding_errors
+                def Tlk(_data, **k):
+                    return _st["TemplateLookup"](directories=[os.path.dirname(fn)], **k).get_template("/" + os.path.basename(fn))
+
+                check_output_side(t, Tlk, data, kw, out, res, what + " (through a TemplateLookup)", rc, real)
         if expn[0] != "error" and nonascii:
             res.nontrivial("c18", codec, decl, body)
         # reload in a fresh process (sampled)
